@@ -28,7 +28,7 @@ def one(sid):
         if p.returncode != 0:
             p = subprocess.run('patch -p1 -s < ' + os.path.join(d, 'patch.diff'), cwd=repo, shell=True, capture_output=True, text=True)
             if p.returncode != 0: return sid, None, 'patch failed: ' + p.stdout + p.stderr
-        r = subprocess.run(['/verif/bin/abcheck', '-property', props, '-tier', tier, '-repo', repo, '-out', out], env=ENV, capture_output=True, text=True)
+        r = subprocess.run([os.environ.get('ABCHECK', '/verif/bin/abcheck'), '-property', props, '-tier', tier, '-repo', repo, '-out', out], env=ENV, capture_output=True, text=True)
         hits = sorted({l.split()[1].split('=')[1] for l in r.stdout.splitlines() if l.startswith('VIOLATION')})
         detail = [l for l in r.stdout.splitlines() if l.startswith('violated') or l.startswith('UNDECIDED')]
         if r.returncode not in (0, 1): detail.append('EXIT %d: ' % r.returncode + r.stdout[-300:] + r.stderr[-300:]); hits = ['EXIT%d' % r.returncode] + hits
